@@ -1488,7 +1488,9 @@ func (s *S3Proxy) ChangeBucketOwner(ctx context.Context, bucket string, acl []by
 		return fmt.Errorf("%v", string(body))
 	}
 
-	return nil
+	// the ACL this gateway serves and checks lives in the bucket tag: without
+	// rewriting it the acknowledged change had no effect through the proxy
+	return s.PutBucketAcl(ctx, bucket, acl)
 }
 
 func (s *S3Proxy) ListBucketsAndOwners(ctx context.Context) ([]s3response.Bucket, error) {
